@@ -406,6 +406,95 @@ fn case_gap(out: &mut CaseOut, seed: u64, idx: u64) {
     let _ = show;
 }
 
+
+/// Crash images of a recorded execution (orphan tables of unfinished flushes and compactions,
+/// half-written temp files, superseded manifests, stale WALs): after recovery, one more flush/GC
+/// cycle and quiescence the directory must again hold exactly what is needed.
+fn case_crash_images(out: &mut CaseOut, tier: &str, seed: u64, idx: u64) {
+    use crate::crash::{self, ExecParams};
+    use crate::simfs::{OpKind, Replayer};
+    let mut rng = Rng::new(mix(&[seed, idx], "c11-crash"));
+    let n_ops = rng.range(100, 200) as usize;
+    let params = ExecParams::generate(&mut rng, idx, n_ops);
+    let exec = crash::record_execution(&mut rng, &params);
+    if let Some(why) = &exec.degenerate {
+        out.inconclusive(format!("degenerate execution: {why}"));
+        return;
+    }
+    let n = exec.journal.len();
+    // crash points right after calls that leave something behind: table writes, manifest and
+    // CURRENT switching, removals
+    let mut candidates: Vec<usize> = (1..=n)
+        .filter(|k| {
+            let e = &exec.journal[*k - 1];
+            matches!(e.op.class(), PathClass::Table | PathClass::Manifest | PathClass::Temp | PathClass::Current)
+                || e.op.kind() == OpKind::Remove
+                || e.op.kind() == OpKind::CreateTrunc
+        })
+        .collect();
+    rng.shuffle(&mut candidates);
+    candidates.truncate(if tier == "quick" { 25 } else { 60 });
+    candidates.sort_unstable();
+    let mut replayer = Replayer::new(&dbutil::root_image());
+    let mut checked = 0u64;
+    for k in candidates {
+        while replayer.applied() < k {
+            replayer.step(&exec.journal[replayer.applied()]);
+        }
+        watch::tick();
+        let image = replayer.image();
+        let (acked, with) = exec.expected_at(k as u64);
+        let cfg = exec.cfg_at(k as u64 - 1);
+        let d = director();
+        d.reset(rng.next_u64());
+        let fs = SimFs::from_image(&image);
+        fs.set_strict_unlink(true);
+        let mut sess = Session::new(fs.clone(), cfg);
+        sess.fill_cache = false;
+        if sess.open().is_err() {
+            // a failing recovery is C02's verdict, not this property's
+            out.add("crash_images_not_recoverable", 1);
+            continue;
+        }
+        let got: crate::session::Map = match sess.scan(None) {
+            Ok(entries) => entries.into_iter().collect(),
+            Err(_) => {
+                sess.close();
+                continue;
+            }
+        };
+        if got == acked {
+            sess.model = acked;
+        } else if with.as_ref() == Some(&got) {
+            sess.model = with.unwrap();
+        } else {
+            out.add("crash_images_with_unexpected_contents", 1);
+            sess.close();
+            continue;
+        }
+        let phase = exec.phase_of(k - 1);
+        let ctx = json!({"execution": exec.description, "crash_after_mutating_call": k, "of": n, "last_call": exec.journal[k - 1].op.describe(),
+            "phase": phase, "files_in_image": image.listing()});
+        dir_check(out, &mut sess, "after-crash-recovery", &ctx, "C11");
+        judge_anomalies(out, &fs, &ctx, "C11");
+        // everything recovered is still readable after the cleanup
+        let universe: BTreeSet<Vec<u8>> = exec.universe.iter().cloned().collect();
+        verify_view(out, &sess, None, &sess.model.clone(), &universe, "after-crash-recovery-and-gc", &ctx, "C11");
+        sess.close();
+        checked += 1;
+        out.set_add("crash_phases", phase);
+        if out.is_violated() {
+            break;
+        }
+    }
+    out.add("crash_images_checked", checked);
+    if checked >= 2 {
+        out.nontrivial(format!("crash-images/{}/reuse{}", params.family.name(), params.cfg.reuse as u8));
+        out.distinct_extra = checked.saturating_sub(1);
+    }
+    out.sample = Some(json!({"family": "crash-images", "execution": exec.description, "crash_points_checked": checked}));
+}
+
 pub fn run_case(tier: &str, seed: u64, idx: u64) -> CaseOut {
     let mut out = CaseOut::new();
     let (ng, no) = (n_gap(tier), n_orphan(tier));
@@ -413,6 +502,8 @@ pub fn run_case(tier: &str, seed: u64, idx: u64) -> CaseOut {
         case_gap(&mut out, seed, idx);
     } else if idx < ng + no {
         case_orphans(&mut out, seed, idx - ng);
+    } else if (idx - ng - no) % 5 == 4 {
+        case_crash_images(&mut out, tier, seed, idx);
     } else {
         case_shape(&mut out, tier, seed, idx - ng - no);
     }
